@@ -51,15 +51,37 @@ type c06step struct {
 }
 
 // capVariant builds an authenticate payload; valid reports whether it carries accepted string credentials in a well-formed map.
+// the credentials of the harness's control connection: both contain every usual separator
+const ctlUser = "ctl:a/b=c d;e|f,g"
+const ctlToken = "s:1/2=3 4;5|6,7-secret"
+
 func capVariant(rng *rand.Rand, user, pass string) (payload []byte, desc string, valid bool) {
-	switch rng.Intn(14) {
+	switch rng.Intn(16) {
 	case 12:
 		// the accepted pair of ANOTHER connection (the harness's control connection authenticates in every
 		// plan) cut at a different place: same characters in a row, a different user / token pair
-		k := 1 + rng.Intn(6)
-		return capMap("auth_user", "control"[:k], "auth_token", "control"[k:]+"control-secret"), "accepted-pair-of-another-connection-split-differently", false
+		cat := ctlUser + ctlToken
+		k := 1 + rng.Intn(len(cat)-2)
+		if k == len(ctlUser) {
+			k++
+		}
+		return capMap("auth_user", cat[:k], "auth_token", cat[k:]), "accepted-pair-of-another-connection-split-differently", false
 	case 13:
-		return capMap("auth_user", "", "auth_token", "controlcontrol-secret"), "accepted-pair-of-another-connection-as-token-only", false
+		return capMap("auth_user", "", "auth_token", ctlUser+ctlToken), "accepted-pair-of-another-connection-as-token-only", false
+	case 14, 15:
+		// the same with a separator between the two: user and token of the control pair contain every
+		// usual separator, so "user SEP token" can be cut at another occurrence of SEP
+		seps := ":/= ;|,"
+		sep := string(seps[rng.Intn(len(seps))])
+		joined := ctlUser + sep + ctlToken
+		var at []int
+		for j := 0; j < len(joined); j++ {
+			if string(joined[j]) == sep && j != len(ctlUser) {
+				at = append(at, j)
+			}
+		}
+		j := at[rng.Intn(len(at))]
+		return capMap("auth_user", joined[:j], "auth_token", joined[j+1:]), "accepted-pair-of-another-connection-cut-at-another-separator", false
 	case 0, 1:
 		return capMap("ClientServerSocket", true, "auth_user", user, "auth_token", pass), "valid-credentials", true
 	case 2:
@@ -92,7 +114,7 @@ func capVariant(rng *rand.Rand, user, pass string) (payload []byte, desc string,
 }
 
 func c06(c *wk.Ctx) {
-	c.Note("rule", "a server with a dictionary authenticator (unique user per connection, decisions recorded) hosts the Probe service; each plan opens 2-4 raw connections that concurrently send PRNG sequences of 1-14 frames from a grammar: every message type, service in {0, directory, Probe, unknown}, any object/action, payloads = capability maps (valid, wrong token, unknown user, missing, forged __qi_auth_state as uint/int, the accepted pair of another connection split at another place, wrongly typed or raw-typed credentials, truncated, oversized count), work() arguments carrying a token unique to the connection, random bytes, invalid headers. The monitor keeps per connection 'a well-formed authenticate request with accepted string credentials was sent earlier'. Oracle: a token sent while that is false is never executed (counter read after a FIFO barrier), also on connections that stay unauthenticated while another authenticates; a Call to a service other than 0 sent while it is false is answered with an Error for its id and the stream ends. Stream lenient: servers whose authenticator does not constrain the user name (bus.Yes, a token-only one); authenticate requests whose auth_user / auth_token entries are absent, strings or of another type (uint, int, bool, list, raw, float, void): a request with a wrongly typed entry never authenticates (the following call is refused and not executed), a well-typed one the authenticator accepts does. Distinct non-trivial = distinct frame sequences containing at least one frame addressed to a service other than 0 before any accepted authenticate.")
+	c.Note("rule", "a server with a dictionary authenticator (unique user per connection, decisions recorded) hosts the Probe service; each plan opens 2-4 raw connections that concurrently send PRNG sequences of 1-14 frames from a grammar: every message type, service in {0, directory, Probe, unknown}, any object/action, payloads = capability maps (valid, wrong token, unknown user, missing, forged __qi_auth_state as uint/int, the accepted pair of another connection split at another place or cut at another occurrence of a separator (the control pair contains : / = space ; | ,), wrongly typed or raw-typed credentials, truncated, oversized count), work() arguments carrying a token unique to the connection, random bytes, invalid headers. The monitor keeps per connection 'a well-formed authenticate request with accepted string credentials was sent earlier'. Oracle: a token sent while that is false is never executed (counter read after a FIFO barrier), also on connections that stay unauthenticated while another authenticates; a Call to a service other than 0 sent while it is false is answered with an Error for its id and the stream ends. Stream lenient: servers whose authenticator does not constrain the user name (bus.Yes, a token-only one); authenticate requests whose auth_user / auth_token entries are absent, strings or of another type (uint, int, bool, list, raw, float, void): a request with a wrongly typed entry never authenticates (the following call is refused and not executed), a well-typed one the authenticator accepts does. Distinct non-trivial = distinct frame sequences containing at least one frame addressed to a service other than 0 before any accepted authenticate.")
 	var w *world
 	var rec *recordingAuth
 	var ps *probeService
@@ -103,7 +125,7 @@ func c06(c *wk.Ctx) {
 		if w != nil {
 			w.close()
 		}
-		users = map[string]string{"control": "control-secret"}
+		users = map[string]string{ctlUser: ctlToken}
 		for k := 0; k < 4096; k++ {
 			users[fmt.Sprintf("user%d", k)] = fmt.Sprintf("secret%d", k)
 		}
@@ -347,7 +369,7 @@ func c06(c *wk.Ctx) {
 		// authenticator no connection can ever reach the mailboxes, so there is nothing to flush)
 		ctl, err := dialRaw(w.addr)
 		if err == nil {
-			if ok, _ := ctl.authenticate("control", "control-secret"); ok {
+			if ok, _ := ctl.authenticate(ctlUser, ctlToken); ok {
 				for _, o := range ps.objs {
 					ctl.call(ps.id, o.id, workID, workArgs(1, "flush"), nil)
 				}
